@@ -33,6 +33,7 @@ impl<'a> BytesLike for &'a [u8] { open spec fn bview(&self) -> Seq<u8> { (*self)
 impl BytesLike for Vec<u8> { open spec fn bview(&self) -> Seq<u8> { self@ } }
 impl<'a> BytesLike for &'a Vec<u8> { open spec fn bview(&self) -> Seq<u8> { (*self)@ } }
 impl<'a, const N: usize> BytesLike for &'a [u8; N] { open spec fn bview(&self) -> Seq<u8> { (*self)@ } }
+impl<const N: usize> BytesLike for [u8; N] { open spec fn bview(&self) -> Seq<u8> { self@ } }
 impl<'a, 'b> BytesLike for &'a &'b Vec<u8> { open spec fn bview(&self) -> Seq<u8> { (**self)@ } }
 /// cbor_event's `write_text<S: AsRef<str>>`
 pub trait TextLike { spec fn tview(&self) -> Seq<char>; }
